@@ -1,7 +1,9 @@
 (* C05 - A prior solution reproduces itself.  Statements and `exact` only. *)
 From Coq Require Import List String Bool NArith.
-From RC Require Import lib.Pep440 lib.Name model.Merge model.Graph model.Solver proofs.SolverP proofs.StackP.
+From RC Require Import lib.Pep440 lib.Name model.Merge model.Graph model.Solver proofs.SolverP proofs.StackP proofs.WitnessSolver proofs.SolverStatements.
 Import ListNotations.
+Open Scope string_scope.
+Open Scope list_scope.
 
 (* MultiRepository: the first repository of the stack that answers supplies the distribution ... *)
 Theorem C05_first_repository_that_answers_wins :
@@ -43,3 +45,15 @@ Theorem C05_recorded_version_falls_through :
   get_dist_stack ((sol, true) :: rest) r budget = get_dist_stack rest r budget.
 Proof. exact recorded_version_falls_through. Qed.
 Print Assumptions C05_recorded_version_falls_through.
+
+(* The whole-chain statement's last sentence is FALSE of the faithful model (and of /repo: known finding
+   C05-release-residue): [a; b; c] is pinned [3.0; 3.0; 1.0] by the first compile and [4.1; 3.0; 1.0] when
+   that output is fed back with c released - c returns to its old version, a has moved although nothing
+   in the result forces it. *)
+Theorem C05_refuted_release_moves_unforced_pin :
+  w_c05_release_residue_first_pins (w_c05_release_residue_first_run 100)
+    = [Some (Some "3.0"); Some (Some "3.0"); Some (Some "1.0")] /\
+  w_c05_release_residue_pins (w_c05_release_residue_run 100)
+    = [Some (Some "4.1"); Some (Some "3.0"); Some (Some "1.0")].
+Proof. exact c05_release_residue_witness. Qed.
+Print Assumptions C05_refuted_release_moves_unforced_pin.
